@@ -1,8 +1,14 @@
 """Explicit-state reachability search: do the items fit into m bins?"""
 
 
+_PL = {}
+
+
 def placements(w, h, W, H):
     """All position masks of a w x h rectangle in a W x H bin (bit x*H+y)."""
+    key = (w, h, W, H)
+    if key in _PL:
+        return _PL[key]
     res = []
     for x in range(W - w + 1):
         for y in range(H - h + 1):
@@ -11,10 +17,35 @@ def placements(w, h, W, H):
                 for yy in range(y, y + h):
                     m |= 1 << (xx * H + yy)
             res.append((m, x, y))
+    if len(_PL) < 5000:
+        _PL[key] = res
     return res
 
 
-def fits(items, m, W, H, want_cert=False, stats=None):
+def normal_positions(items, W, H):
+    """
+    Candidate coordinates by the normal-pattern argument.
+
+    Every feasible packing can be pushed left and down until each item
+    touches the wall or another item on its left and below; then its x is a
+    sum of widths (in some orientation) of other items, its y a sum of
+    heights. So only subset sums of the side lengths need to be tried.
+    """
+    sides = []
+    for (w, h) in items:
+        sides.append((w, h))
+    sums = {0}
+    for (w, h) in sides:
+        new = set()
+        for s0 in sums:
+            for d in {w, h}:
+                if s0 + d <= max(W, H):
+                    new.add(s0 + d)
+        sums |= new
+    return sorted(sums)
+
+
+def fits(items, m, W, H, want_cert=False, stats=None, normal=None):
     """
     Can all items (list of (w, h)), rotation allowed, be placed in m bins?
 
@@ -28,13 +59,17 @@ def fits(items, m, W, H, want_cert=False, stats=None):
     items = sorted(items, key=lambda t: (-t[0] * t[1], t))
     if sum(w * h for w, h in items) > m * W * H:
         return None
+    if normal is None:
+        normal = W * H > 64
+    cand = set(normal_positions(items, W, H)) if normal else None
     pl = {}
     for (w, h) in set(items):
         opts = []
         for (ww, hh) in {(w, h), (h, w)}:
             if ww <= W and hh <= H:
                 opts += [(mk, x, y, ww, hh)
-                         for (mk, x, y) in placements(ww, hh, W, H)]
+                         for (mk, x, y) in placements(ww, hh, W, H)
+                         if cand is None or (x in cand and y in cand)]
         pl[(w, h)] = opts
     seen = set()
     cert = []
